@@ -327,6 +327,12 @@ def r_table_writers(ctx, prog):
                     for g in RS8_TABLES:
                         if _mentions_global(t, g):
                             callee = prog.callee_fn(i)
+                            if g in allowed.get(fn.name, ()) and i.callee in ('memset', 'bzero', 'memcpy', 'bcopy') and \
+                                    a is i.args[1 if i.callee == 'bcopy' else 0]:
+                                # the generator itself filling its own table through libc: an allowed writer (what it writes is
+                                # R-TABLE-COVERAGE's business)
+                                ctx.ok('R-TABLE-WRITERS', i, 'libc-fill:%s' % g)
+                                continue
                             # passing a table row to a reader (e.g. addmul via __gf_mulc_) is not in the code today
                             ctx.fail('R-TABLE-WRITERS', i, 'arg:%s' % g,
                                      'address inside %s passed to %s: cannot exclude a write' % (g, i.callee))
@@ -354,6 +360,10 @@ def r_table_writers(ctx, prog):
                         if okv:
                             continue
                     ctx.fail('R-TABLE-WRITERS', i, 'read:' + name, 'table generator reads %s' % (g or 'non-global memory'))
+            if i.op == 'call' and i.callee in ('memset', 'bzero', 'memcpy', 'bcopy') and \
+                    any(_mentions_global(Terms(f, forward=False).term(i.args[1 if i.callee == 'bcopy' else 0]), g2)
+                        for g2 in allowed.get(name, ())):
+                continue        # the generator filling its own table through libc (contents: R-TABLE-COVERAGE)
             if i.op == 'call' and i.callee not in ('of_generate_gf', 'of_rs_init_mul_table', 'of_modnn', 'fprintf',
                                                    'printf', 'fflush'):
                 ctx.fail('R-TABLE-WRITERS', i, 'call:' + name, 'table generator calls %s' % i.callee)
@@ -541,3 +551,160 @@ def r_init_before_use(ctx, prog):
                     ctx.instance(R, ok, i, 'rs_cb:store', 'the RS-2^8 descriptor field must only receive of_rs_new() results or NULL')
                     n += 1
     ctx.need(n >= 1, R, 'no store into the rs_cb descriptor field found')
+
+
+# ------------------------------------------------------------------ R-TABLE-COVERAGE
+def r_table_coverage(ctx, prog):
+    """Every entry of a generated table is written by the generator: the index ranges of its stores (constants, loop induction
+    variables with constant bounds, induction variable plus constant) cover the whole array.  Tables written through
+    data-dependent indices (the logarithm table, a permutation of the exponent table's values) are not judged."""
+    import re
+    from .ir import loop_range
+    R = 'R-TABLE-COVERAGE'
+    ctx.rule(R, 'the stores of the table generators cover every entry of the exponent, inverse and multiplication tables '
+             '(union of the constant / induction-variable index ranges = whole array)', floor=1)
+    u = [x for x in prog.units if x.name == RS8_UNIT]
+    ctx.need(u, R, 'unit missing')
+    u = u[0]
+
+    def dims(ty):
+        return [int(x) for x in re.findall(r'\[(\d+) x', ty)]
+
+    def idx_range(f, tt, t):
+        """[lo, hi) of an index term, or None when it is not constant / affine in an induction variable with constant bounds"""
+        if t[0] == 'const':
+            return (t[1], t[1] + 1)
+        off = 0
+        if t[0] == 'bin' and t[1] == 'add' and t[3][0] == 'const':
+            off, t = t[3][1], t[2]
+        if t[0] == 'trunc':
+            t = t[2]
+        if t[0] == 'phi':
+            for lp in f.loops.values():
+                lr = loop_range(f, lp, tt)
+                if lr is not None and tt.term(_V2(lr.iv)) == t and lr.step == 1 and lr.start[0] == 'const' and lr.bound[0] == 'const':
+                    hi = lr.bound[1] + (1 if lr.pred in ('sle', 'ule') else 0)
+                    if lr.pred in ('slt', 'ult', 'sle', 'ule'):
+                        return (lr.start[1] + off, hi + off)
+        return None
+    for tab in ('of_rs_gf_exp', 'of_rs_inverse', 'of_gf_mul_table'):
+        g = u.globals.get(tab)
+        ctx.need(g is not None, R, 'table %s missing' % tab)
+        dd = dims(g['ty'])
+        ctx.need(dd, R, 'table %s has no array type' % tab)
+        covered = []
+        unknown = None
+        full2d = False
+        where = None
+        for name in ('of_generate_gf', 'of_rs_init_mul_table'):
+            f = u.functions.get(name)
+            if f is None:
+                continue
+            tt = Terms(f, forward=False)
+            for i in f.all_insts():
+                if i.op != 'store':
+                    continue
+                a = tt.term(i.ops[1])
+                if not _mentions_global(a, tab):
+                    continue
+                where = where or i
+                path = []
+                t = a
+                while t[0] == 'elem':
+                    path.append(t[2])
+                    t = t[1]
+                path.reverse()
+                if t[0] == 'goff':
+                    esz = g['bytes'] // (dd[0] * (dd[1] if len(dd) > 1 else 1))
+                    flat = t[2] // esz
+                    path = ([('const', flat // dd[1]), ('const', flat % dd[1])] if len(dd) > 1 else [('const', flat)]) if not path else path
+                rs = [idx_range(f, tt, x) for x in path]
+                if len(dd) == 1:
+                    r0 = rs[0] if rs else (0, 1)
+                    if r0 is None:
+                        unknown = i
+                    else:
+                        covered.append(r0)
+                else:
+                    rs = rs + [(0, 1)] * (2 - len(rs)) if all(r is not None for r in rs) else rs
+                    if len(rs) == 2 and all(r is not None for r in rs) and rs[0] == (0, dd[0]) and rs[1] == (0, dd[1]):
+                        full2d = True
+        if len(dd) > 1:
+            ctx.instance(R, full2d, where or u.functions['of_rs_init_mul_table'], 'coverage:%s' % tab,
+                         'no store T[i][j] with i in [0,%d) and j in [0,%d): the multiplication table is not filled completely' % (dd[0], dd[1]))
+            # "anything times zero is zero": log(0) is a dummy, so row 0 and column 0 must be cleared explicitly, all of them
+            f = u.functions.get('of_rs_init_mul_table')
+            if f is not None:
+                tt = Terms(f, forward=False)
+                row0, col0 = [], []
+                for i in f.all_insts():
+                    if i.op == 'store' and const_of(i.ops[0]) == 0:
+                        a = tt.term(i.ops[1])
+                        if not _mentions_global(a, tab):
+                            continue
+                        path = []
+                        t = a
+                        while t[0] == 'elem':
+                            path.append(t[2])
+                            t = t[1]
+                        path.reverse()
+                        # &T[0][0] is folded into the base: a single index on the table itself addresses row 0
+                        path = [('const', 0)] * (2 - len(path)) + path
+                        r0, r1 = idx_range(f, tt, path[0]), idx_range(f, tt, path[1])
+                        if r0 == (0, 1) and r1 is not None:
+                            row0.append(r1)
+                        if r1 == (0, 1) and r0 is not None:
+                            col0.append(r0)
+                    elif i.op == 'call' and i.callee in ('memset', 'bzero'):
+                        a = tt.term(i.args[0])
+                        if _mentions_global(a, tab):
+                            ln = tt.term(i.args[1] if i.callee == 'bzero' else i.args[2])
+                            fillz = i.callee == 'bzero' or const_of(i.args[1]) == 0
+                            base_row0 = a in (('global', tab), ('elem', ('global', tab), ('const', 0)))
+                            n_bytes = None
+                            if ln[0] == 'const':
+                                n_bytes = ln[1]
+                            elif ln[0] == 'bin' and ln[1] == 'mul' and ln[2][0] == 'const' and ln[3][0] == 'const':
+                                n_bytes = ln[2][1] * ln[3][1]
+                            if fillz and base_row0 and n_bytes is not None:
+                                row0.append((0, n_bytes))
+
+                def covers(rs, n):
+                    pos = 0
+                    for lo, hi in sorted(rs):
+                        if lo > pos:
+                            break
+                        pos = max(pos, hi)
+                    return pos >= n, pos
+                okr, pr = covers(row0, dd[1])
+                okc, pc = covers(col0, dd[0])
+                ctx.instance(R, okr and okc, f, 'coverage:%s:times-zero' % tab,
+                             'row 0 is cleared up to entry %d of %d and column 0 up to entry %d of %d: a "times zero" product keeps the '
+                             'value computed from the dummy logarithm of 0' % (pr, dd[1], pc, dd[0]))
+            continue
+        if unknown is not None:
+            ctx.ok(R, unknown, 'coverage:%s:data-dependent' % tab, 'written through a data-dependent index: not judged')
+            continue
+        covered.sort()
+        pos = 0
+        gap = None
+        for lo, hi in covered:
+            if lo > pos:
+                gap = (pos, lo)
+                break
+            pos = max(pos, hi)
+        if gap is None and pos < dd[0]:
+            gap = (pos, dd[0])
+        ctx.instance(R, gap is None, where or u.functions['of_generate_gf'], 'coverage:%s' % tab,
+                     'the generator never writes %s[%d..%d] (stores cover %s of %d entries): those entries keep whatever the static '
+                     'storage held' % (tab, gap[0] if gap else 0, (gap[1] - 1) if gap else 0, covered, dd[0]))
+
+
+def _V2(inst):
+    class X(object):
+        pass
+    x = X()
+    x.k = 'i'
+    x.inst = inst
+    x.idx = inst.id
+    return x
